@@ -188,6 +188,28 @@ class RDMol2StereoMolGraph:
                 assert len(sp_atoms) == 5
                 atom_stereo = SquarePlanar(atoms=sp_atoms, parity=0)
 
+            elif (
+                chiral_tag
+                in (
+                    Chem.ChiralType.CHI_TRIGONALBIPYRAMIDAL,
+                    Chem.ChiralType.CHI_OCTAHEDRAL,
+                )
+                and not (
+                    atom.HasProp("_chiralPermutation")
+                    and atom.GetUnsignedProp("_chiralPermutation")
+                )
+            ):
+                # no permutation label (written for parity None): the
+                # arrangement is unspecified
+                stereo_class = (
+                    TrigonalBipyramidal
+                    if chiral_tag == Chem.ChiralType.CHI_TRIGONALBIPYRAMIDAL
+                    else Octahedral
+                )
+                atom_stereo = stereo_class(
+                    (id_atom_map[atom_idx], *neighbors), None
+                )
+
             elif chiral_tag == Chem.ChiralType.CHI_TRIGONALBIPYRAMIDAL:
                 perm = atom.GetUnsignedProp("_chiralPermutation")
                 tbp_order = self._tbp_atom_order_permutation_dict[perm]
